@@ -64,7 +64,7 @@ vars == <<objs, comp, kind, R, text, plain, file, pos, rel, eof, pend, acc, load
 
 (* the C15 model of rxsci.framing.line is re-used for the unframe stage *)
 LF == INSTANCE LineFraming WITH Alphabet <- Syms, MaxItems <- 0, MaxLen <- 0, MaxChunk <- 0,
-                                KeepHist <- FALSE, items <- <<>>, tail <- <<>>, pos <- 0,
+                                KeepHist <- FALSE, Deviation <- "none", items <- <<>>, tail <- <<>>, pos <- 0,
                                 acc <- <<>>, out <- <<>>, done <- FALSE, hist <- <<>>
 
 HDR == -1
